@@ -30,6 +30,20 @@ async def pass_all(_name, _sig, _context):
     return types.ValidResult.PASS
 
 
+class CommandSigner(sec.DigestSha256Signer):
+    """
+    DigestSha256 signer for command Interests which puts the timestamp reserved for the command
+    into SignatureTime, instead of reading the clock a second time.
+    """
+    def __init__(self, timestamp: int):
+        super().__init__(for_interest=True)
+        self.timestamp = timestamp
+
+    def write_signature_info(self, signature_info):
+        super().write_signature_info(signature_info)
+        signature_info.signature_time = self.timestamp
+
+
 class NfdRegister(PrefixRegisterer):
     _prefix_register_semaphore: aio.Semaphore = None
     _last_command_timestamp: int = 0
@@ -50,7 +64,7 @@ class NfdRegister(PrefixRegisterer):
             try:
                 _, reply, _ = await self.app.express(
                     name=nfd_mgmt.make_command_v2('rib', 'register', self.app.face, name=name),
-                    app_param=b'', signer=sec.DigestSha256Signer(for_interest=True),
+                    app_param=b'', signer=CommandSigner(now),
                     validator=pass_all,
                     lifetime=1000)
                 ret = nfd_mgmt.parse_response(reply)
@@ -83,7 +97,7 @@ class NfdRegister(PrefixRegisterer):
             try:
                 _, reply, _ = await self.app.express(
                     nfd_mgmt.make_command_v2('rib', 'unregister', self.app.face, name=name),
-                    app_param=b'', signer=sec.DigestSha256Signer(for_interest=True),
+                    app_param=b'', signer=CommandSigner(now),
                     validator=pass_all, lifetime=1000)
                 ret = nfd_mgmt.parse_response(reply)
                 if ret['status_code'] != 200:
